@@ -222,6 +222,36 @@ PROPS['C09']['engines'] = [dict(module='gvc.engine', args=dict(analyses=('assume
 PROPS['C04']['engines'] = [dict(module='gvc.engine', args=dict(analyses=('frame', 'assumed', 'kwsites', 'pptotal'))), REPLAY]
 PROPS['C06']['engines'] = [dict(module='gvc.engine', args=dict(analyses=('pptotal', 'faithful', 'shadow', 'assumed'))), dict(module='vx.boundeng'), REPLAY]
 
+# ---- premise closure -----------------------------------------------------------------------------------------------------
+# Verification is modular: a unit verifies its functions against the CONTRACTS of their callees.  Those contracts are proved in
+# other units.  A property whose units assume a contract is only established when the unit that proves the contract succeeds on the
+# same tree.  CALLEES: unit -> units that prove contracts it assumes (callee side only; transitive closure is taken).
+CALLEES = {
+    'arms': ['derive', 'getstr', 'pt', 'pphelp', 'iter', 'conv', 'loc'],
+    'glue': ['arms', 'derive', 'pt'],
+    'rtmu': ['split', 'pphelp', 'getstr', 'derive', 'iter', 'conv'],
+    'wrap': ['loc'],
+    'getstr': ['iter', 'conv', 'derive'],
+    'derive': ['iter', 'conv'],
+    'pphelp': ['getstr', 'derive'],
+    'iter': ['conv'],
+    'pt': [], 'split': [], 'conv': [], 'loc': [], 'depth': [], 'prologue': [], 'kwstack': [], 'display': [],
+}
+# callee-side units: a refuted obligation there is a refuted CONTRACT somebody relies on
+CALLEE_SIDE = {'derive', 'getstr', 'pt', 'pphelp', 'iter', 'conv', 'loc', 'split'}
+
+
+def premise_units(units):
+    seen, todo = [], list(units)
+    while todo:
+        u = todo.pop(0)
+        for c in CALLEES.get(u, []):
+            if c not in seen and c not in units:
+                seen.append(c)
+                todo.append(c)
+    return seen
+
+
 NOT_APPLICABLE = {
     'C02': 'the oracle is the set of Annex A sentences and their production labels; a contract able to state it would restate the 1.3k-production grammar, and PEG ordered choice over it is not a per-function property (DESIGN.md 4)',
     'C12': 'a relation between two parses of two different inputs over every production and trivia assignment (hyperproperty); per-function contracts do not compose to it without a proof about the whole PEG (DESIGN.md 4)',
